@@ -112,10 +112,11 @@ func observedRelay() (*relay.Relay, func() string) {
 func cv(c prometheus.Counter) int { return counterValue(c) }
 
 // case: "<kind> <args...>"
-//   U <payloadhex> <relay 0/1>           UDP HandlePacket
-//   X <payloadhex> <relay 0/1>           Unixgram HandlePacket
-//   T <payloadhex> <seed> <relay 0/1>    TCP HandleConn over loopback with random segmentation
-//   P <cap> <op,op,...>                  UDP packet queue with a REUSED read buffer: op = R<hex> | D
+//
+//	U <payloadhex> <relay 0/1>           UDP HandlePacket
+//	X <payloadhex> <relay 0/1>           Unixgram HandlePacket
+//	T <payloadhex> <seed> <relay 0/1>    TCP HandleConn over loopback with random segmentation
+//	P <cap> <op,op,...>                  UDP packet queue with a REUSED read buffer: op = R<hex> | D
 func listenerCase(c string) string {
 	f := strings.Fields(c)
 	p := &recParser{}
